@@ -445,4 +445,56 @@ def rule_borrowed_r4(ctx):
     ctx.borrow(rule_exit, {"C14.EXIT": "C12.EXIT"})
 
 
-RULES = [rule_fields, rule_detach, rule_replace, rule_tasks, rule_close, rule_file, rule_timeout_ends, rule_open_factory, rule_borrowed_r4, rule_forget_closed]
+def rule_join(ctx):
+    p = ctx.p
+    ctx.rule("C12.JOIN", "the session end waits for the reply queue with `await <queue>.join()`: the writer marks every item it took as done whatever the write did "
+                         "(task_done() on every path out of the iteration, the failing write included) - otherwise a reply that cannot be written leaves the dispatcher "
+                         "in join() for ever, with the session's table entry, listener and slots")
+    srv = p.trees["server.py"]
+    joins = [c for c in ast.walk(srv) if isinstance(c, ast.Call) and is_method_call(c, "join") and not c.args and isinstance(p.parent.get(c), ast.Await)
+             and "queue" in src(c.func.value).lower()]
+    consumers = []
+    for fn in ast.walk(srv):
+        if isinstance(fn, ast.AsyncFunctionDef):
+            gets = [c for c in walk_no_nested(fn) if isinstance(c, ast.Call) and is_method_call(c, "get") and not c.args and "queue" in src(c.func.value).lower()]
+            if gets:
+                consumers.append((fn, gets))
+    if not joins:
+        ctx.ob("C12.JOIN", srv, "no `await <queue>.join()` in server.py: nothing waits for the writer through the queue counter", True)
+        return
+    if not consumers:
+        raise AnalysisError("anchor=reply queue consumer (`await <queue>.get()`) not found")
+
+    def may_raise(n):
+        return ["*"] if any(isinstance(x, ast.Await) for x in ast.walk(n)) else []
+    for fn, gets in consumers:
+        q = src(gets[0].func.value)
+        loops = [l for l in walk_no_nested(fn) if isinstance(l, ast.While) and any(g is x for g in gets for x in ast.walk(l))]
+        body = loops[0].body if loops else fn.body
+        n_paths = bad = 0
+        worst = None
+        for ev, out in Cfg(may_raise, p.issub, unroll=1, bonus=False).seq(body):
+            seen_get = done = False
+            for e in ev:
+                if e[0] == "stmt":
+                    calls = [c for c in walk_self(e[1]) if isinstance(c, ast.Call)]
+                    if any(c is g for c in calls for g in gets):
+                        seen_get = True
+                    elif seen_get and any(is_method_call(c, "task_done") and src(c.func.value) == q for c in calls):
+                        done = True
+            if not seen_get:
+                continue
+            n_paths += 1
+            if not done:
+                bad += 1
+                worst = worst or (out, next((e[2] for e in reversed(ev) if e[0] == "exc"), None))
+        how = ""
+        if worst:
+            out, at = worst
+            how = f"leaves by {out[0]}" + (f" from `{src(at)[:50]}`" if at is not None else "")
+        ctx.ob("C12.JOIN", fn, f"{p.fn_of(gets[0])}: every path after `{q}.get()` reaches `{q}.task_done()` ({n_paths} paths, exceptional ones included)", n_paths > 0 and not bad,
+               f"{p.fn_of(gets[0])}: {bad} of {n_paths} paths after `{q}.get()` never call `{q}.task_done()` ({how}): when the write fails the queue counter stays up and "
+               f"`await {src(joins[0].func.value)}.join()` at line {joins[0].lineno} never returns - the session is never cleaned up", construct=f"join:{fn.name}:item not marked done")
+
+
+RULES = [rule_join, rule_fields, rule_detach, rule_replace, rule_tasks, rule_close, rule_file, rule_timeout_ends, rule_open_factory, rule_borrowed_r4, rule_forget_closed]
